@@ -264,7 +264,30 @@ def judge_queries(em, grid, rec, label, order=(False, True)):
 def build(case):
     import droplets
 
-    cls = getattr(droplets, case.get("cls", "SphericalDroplet"))
+    name = case.get("cls", "SphericalDroplet")
+    dim = len(case["droplets"][0]) - 1 if case["droplets"] else 0
+    if name in ("mixed", "perturbed"):
+        # emulsions mixing droplet classes (spherical next to diffuse), and perturbed droplets: distances, overlaps and
+        # sizes are defined by position and radius for every class.  All perturbed members carry the same small
+        # amplitudes, so "larger" means the same whether read as radius or as volume.
+        from droplets import droplets as dmod
+
+        em = droplets.Emulsion()
+        for i, r in enumerate(case["droplets"]):
+            pos, R = np.asarray(r[:-1], float), float(r[-1])
+            if name == "mixed":
+                d = dmod.SphericalDroplet(pos, R) if i % 2 == 0 else dmod.DiffuseDroplet(pos, R, 0.5)
+            elif dim == 2:
+                d = dmod.PerturbedDroplet2D(pos, R, 0.5, [0.1, -0.05])
+            elif dim == 3 and case.get("axisym"):
+                d = dmod.PerturbedDroplet3DAxisSym(np.array([0.0, 0.0, pos[2]]), R, 0.5, [0.1, -0.05])
+            elif dim == 3:
+                d = dmod.PerturbedDroplet3D(pos, R, 0.5, [0.1, 0.0, -0.05])
+            else:
+                d = dmod.DiffuseDroplet(pos, R, 0.5)
+            em.append(d, copy=False)
+        return em
+    cls = getattr(droplets, name)
     em = droplets.Emulsion()
     for r in case["droplets"]:
         if cls is droplets.SphericalDroplet:
@@ -398,7 +421,11 @@ def gen(rng, kind, tier):
                  "shape": shape, "periodic": per}
         d_min = float(rng.choice([0.0, 0.0, -0.4, 0.3, 1.0, float(rng.uniform(-1, 2))]))
         case = {"droplets": drops, "d_min": d_min, "grid": g,
-                "cls": str(rng.choice(["SphericalDroplet", "SphericalDroplet", "DiffuseDroplet"]))}
+                "cls": str(rng.choice(["SphericalDroplet", "SphericalDroplet", "DiffuseDroplet", "mixed", "perturbed"]))}
+        if case["cls"] == "perturbed" and dim == 3 and rng.random() < 0.5:
+            case["axisym"] = True
+            case["droplets"] = [[0.0, 0.0] + d[2:] for d in drops]
+            drops = case["droplets"]
         # knife-edge regeneration
         per = geom.cart_periodicity(g) if g else [None] * dim
         for a, b in itertools.combinations(drops, 2):
